@@ -46,6 +46,9 @@ def pw(t, total):
     return float(v.sum()) if total else float(v.mean())
 
 
+_N = [0]
+
+
 def run(run):
     rng = random.Random(run.seed)
     torch.manual_seed(run.seed)
@@ -95,6 +98,14 @@ def run(run):
                         if not isinstance(target_obj, float):
                             cfg["target_type"] = type(target_obj).__name__
                         c = mk(target_obj)
+                        _N[0] += 1
+                        if _N[0] % 3 == 1:
+                            from .core import noncontiguous
+                            x = noncontiguous(x)          # every third case: the signal arrives as a non-contiguous strided view
+                            cfg["input_form"] = "strided view"
+                        elif _N[0] % 3 == 2:
+                            c.eval()
+                            cfg["mode"] = "eval"
                         try:
                             y = c(x)
                             y2 = c(y)
